@@ -227,7 +227,7 @@ package termincommittee
 //@   inv GhostInv(tic)
 //@   requires [FilterOK] ppm != nil && ppm.content != nil && ppm.content.SignedHeader().BlockHeight() == tic.State.height && ppm.content.Sender().MemberId() != tic.myMemberId
 //@   modifies @TIC
-//@   assert before call processPreprepare [O7.5.standalone-proposal-only-in-view-0] ppm.content.SignedHeader().View() == 0
+//@   assert before call processPreprepare [C07:O7.5.standalone-proposal-only-in-view-0] ppm.content.SignedHeader().View() == 0
 
 // ---------------- NEW_VIEW (C07) ----------------
 
